@@ -52,6 +52,8 @@ struct DumpRecord { // the json_dumps call during which an injected failure fell
 struct SimAlloc {
 	bool installed = false;
 	bool thread_mode = false; // C18: only atomic counters, no side table
+	bool reuse = false;       // hand a freed block straight back to the next request of the same size (LIFO), as a
+	                          // production allocator would; off by default because it blinds ASan to use-after-free
 	// fault window (armed only between entry to and return from a library call)
 	bool armed = false;
 	int64_t fail_at = 0;     // k-th request in this window returns NULL (1-based); 0 = none
